@@ -21,7 +21,17 @@ type AtomicValue[T any] struct {
 //
 // Using nil as the new value will result in panic.
 func (v *AtomicValue[T]) CompareAndSwap(old, new T) (swapped bool) {
-	return v.atom.CompareAndSwap(old, new)
+	for {
+		if v.atom.CompareAndSwap(old, new) {
+			return true
+		}
+		// atomic.Value.CompareAndSwap also fails when another goroutine has just
+		// replaced the stored value with an equal one. Only report failure when
+		// the current value really differs from old.
+		if x := v.atom.Load(); x == nil || x != any(old) {
+			return false
+		}
+	}
 }
 
 // Load returns the value set by the most recent call to Store, or the zero value
